@@ -86,6 +86,8 @@ class ParamsTrans:
             grad = self.tape.jacobian(
                 vals, self.vm.trainable_variables, unconnected_gradients="zero"
             )
+            # one entry per variable: put the variables on the last axis
+            grad = np.stack(grad, axis=-1)
         if not keep:
             del self.tape
         # print(grad)
